@@ -28,7 +28,7 @@ ASSUMPTIONS = ["forcing.module is always given (the property does not say what a
                "the release file has no header line (version 1 always passes the column names)"]
 TIERS = {"quick": dict(runs=220, budget_s=50, shrink=80),
          "thorough": dict(runs=15000, budget_s=900, shrink=150)}
-REQUIRED_PROBES = ["v1", "toml", "grid_omitted", "wildcard", "sections_omitted", "diffusion", "continuous", "leftover_frequency"]
+REQUIRED_PROBES = ["v1", "toml", "grid_omitted", "wildcard", "sections_omitted", "diffusion", "continuous", "leftover_frequency", "user_gridforce_module"]
 
 PROFILE = gen.profile(
     nsteps=(2, 24), p_reversed=0.0, p_land=0.4, p_subgrid=0.35, N=(1, 4), p_vinfo=0.0, cfl=(0.05, 0.6),
@@ -53,7 +53,7 @@ def generate(seed: int, tier: str, idx: int) -> dict:
     if sc["release"].get("mult_column") is False:
         sc["release"].pop("mult_column")
         sc["release"].pop("col_order", None)
-    sc["plan"] = {"omit_ibm": s.chance(0.5)}
+    sc["plan"] = {"omit_ibm": s.chance(0.5), "alt_module": s.chance(0.4)}
     if not sc["release"].get("continuous") and s.chance(0.5):
         # a discrete release whose configuration still carries a release frequency (ignored: not continuous)
         sc["plan"]["leftover_freq_steps"] = s.randint(1, 4)
@@ -76,7 +76,9 @@ def v1_config(sc, d: Path, cfg2: dict) -> dict:
     c["time_control"] = tc
     c["files"] = {"particle_release_file": cfg2["release"]["release_file"],
                   "output_file": cfg2["output"]["filename"]}
-    gf: dict = {"module": "ladim1.gridforce.ROMS", "input_file": cfg2["forcing"]["filename"]}
+    mod = cfg2["forcing"]["module"]
+    gf: dict = {"module": "ladim1.gridforce.ROMS" if mod == "ladim.ROMS" else mod,
+                "input_file": cfg2["forcing"]["filename"]}
     if "filename" in cfg2.get("grid", {}):
         gf["gridfile"] = cfg2["grid"]["filename"]
     if "subgrid" in cfg2.get("grid", {}):
@@ -122,6 +124,10 @@ def run_variant(res: Result, sc, label: str, edit=None, spelling="yaml2", v1=Fal
     try:
         world.write_world(sc, d)
         cfg = world.build_config(sc, d, shims=False)
+        if PLAN.get("alt_module"):
+            alt = str(world.PLUGIN_DIR / "alt_roms.py")
+            cfg["grid"]["module"] = alt
+            cfg["forcing"]["module"] = alt
         lf = PLAN.get("leftover_freq_steps")
         if lf:
             cfg["release"]["release_frequency"] = int(lf) * truth.dt_s(sc)
@@ -253,6 +259,15 @@ def execute(sc) -> Result:
             cfg.pop("grid")
         return cfg
 
+    def omit_grid_module(cfg, d):
+        cfg["grid"].pop("module", None)      # the section stays (file name, subgrid): the forcing module's Grid applies
+        return cfg
+
+    run, got = run_variant(res, sc, "grid_module_omitted", edit=omit_grid_module)
+    judge("C18.default_grid", "grid section without module", run, got)
+    for sp in ("toml2",):
+        run, got = run_variant(res, sc, "grid_module_omitted_toml", edit=omit_grid_module, spelling=sp)
+        judge("C18.default_grid", "grid section without module (TOML)", run, got)
     run, got = run_variant(res, sc, "grid_omitted", edit=omit_grid)
     judge("C18.default_grid", "grid file and module omitted", run, got)
     res.probes["grid_omitted"] += 1
@@ -290,5 +305,7 @@ def execute(sc) -> Result:
         res.probes["continuous"] += 1
     if plan.get("leftover_freq_steps"):
         res.probes["leftover_frequency"] += 1
+    if plan.get("alt_module"):
+        res.probes["user_gridforce_module"] += 1
     res.nontrivial = ran >= 3 and nonempty >= 2
     return res
